@@ -240,7 +240,8 @@ def generate(seed, tier, opts):
         else:
             spec = {"zoo": "Z12", "wingbox": rng.random() < 0.4, "npts": rng.choice([2, 2, 3])}
     elif kind == "S":
-        spec = {"zoo": "Z8"}
+        spec = dict(rng.choice([{"zoo": "Z8"}, {"zoo": "Z8"}, {"zoo": "Z9"}, {"zoo": "Z10"}, {"zoo": "Z11", "compressible": True},
+                                {"zoo": "Z11", "ground": True}]))
     else:
         spec = dict(rng.choice(AS_VARIANTS))
     spec["mode"] = "auto"
@@ -329,7 +330,8 @@ def generate(seed, tier, opts):
             if spec["zoo"] == "Z15" and rng.random() < 0.4:
                 var = rng.choice(["twist_cp_%d" % i, "thickness_cp_%d" % i])  # morph one point's own geometry
             fac = round(rng.uniform(0.85, 1.15), 4)
-            edits.append({"point": i, "var": var, "factor": fac})
+            edits.append({"point": i, "var": var, "factor": fac,
+                          "abort_frac": round(rng.uniform(0.05, 0.95), 3) if rng.random() < 0.25 else None})
         case["edits"] = edits
         case["order"] = rng.sample(range(len(edits)), len(edits))
     elif kind == "S":
@@ -776,6 +778,15 @@ def _exec_multipoint(case, res, log, probe, violation, check_state, check_round_
             v = v * e["factor"]  # a per-point morphing variable (its name carries the point index)
         cur[e["var"]] = v
         model.set_point({e["var"]: v})
+        if e.get("abort_frac") is not None:
+            # the re-analysis is aborted somewhere (in any of the points) and then repeated
+            with faults.AbortInjector(model.prob, at=max(1, int(e["abort_frac"] * 150 * npts))) as inj:
+                st0 = _run(model, res, "edit-abort")
+            if inj.fired:
+                res["fault_fired"]["abort"] = res["fault_fired"].get("abort", 0) + 1
+                probe("abort_during_multipoint_edit")
+            if obs.all_finite(obs.read_outputs(model.prob)):
+                raise HarnessError("NaN after abort in multipoint edit")
         st = _run(model, res, "edit")
         log.add("edit", i, e["var"], e["factor"], st)
         if st != "ok":
@@ -840,8 +851,9 @@ def _exec_multipoint(case, res, log, probe, violation, check_state, check_round_
 def _exec_stiffness(case, res, log, probe, violation, check_state, check_round_trip, ref_outputs):
     spec = case["spec"]
     point = _to_point(case["point"])
-    vals = []
-    for mlt in case["mults"]:
+    surf_names = ["wing", "tail"] if spec["zoo"] == "Z9" else ["wing"]
+
+    def run(mlt):
         s = dict(spec)
         s["stiff"] = mlt
         m = zoo.build(s)
@@ -849,19 +861,34 @@ def _exec_stiffness(case, res, log, probe, violation, check_state, check_round_t
         m.set_point(point)
         st = _run(m, res, "stiff")
         if st != "ok":
+            return None, None, None
+        disp = max(float(np.max(np.abs(np.asarray(m.prob.get_val("AS_point_0.coupled.%s.disp" % n))))) for n in surf_names)
+        CL = float(np.ravel(m.prob.get_val("AS_point_0.CL"))[0])
+        return m, disp, CL
+
+    vals = []
+    for mlt in case["mults"]:
+        m, disp, CL = run(mlt)
+        if m is None:
             violation("liveness", "no convergence at stiffness multiplier %g" % mlt, float("inf"), 0.0)
             return
-        disp = np.asarray(m.prob.get_val("AS_point_0.coupled.wing.disp")).ravel()
-        CL = float(np.ravel(m.prob.get_val("AS_point_0.CL"))[0])
-        vals.append((mlt, float(np.max(np.abs(disp))), CL))
+        vals.append((mlt, disp, CL))
         if mlt == 1.0:
             check_round_trip(m, "stiff1")
-    # rigid twin: AeroPoint on the undeformed mesh with the same geometry and flow
-    r = zoo.build({"zoo": "Z8R", "ny": spec.get("ny", 5), "nx": spec.get("nx", 2)})
-    r.set_point({k: v for k, v in point.items() if k in [i.name for i in r.inputs]})
-    with _quiet():
-        r.prob.run_model()
-    CLr = float(np.ravel(r.prob.get_val("aero_point_0.CL"))[0])
+    if spec["zoo"] == "Z8":
+        # independent rigid twin: AeroPoint on the undeformed mesh with the same geometry and flow
+        r = zoo.build({"zoo": "Z8R", "ny": spec.get("ny", 5), "nx": spec.get("nx", 2)})
+        r.set_point({k: v for k, v in point.items() if k in [i.name for i in r.inputs]})
+        with _quiet():
+            r.prob.run_model()
+        CLr = float(np.ravel(r.prob.get_val("aero_point_0.CL"))[0])
+        probe("rigid_twin_aeropoint")
+    else:
+        # the limit itself: the same model with E, G x 1e8
+        m, _d, CLr = run(1e8)
+        if m is None:
+            raise HarnessError("very stiff reference did not converge")
+        probe("rigid_limit_1e8")
     log.add("stiff", [(m_, "%.6e" % d, "%.9f" % c) for m_, d, c in vals], "%.9f" % CLr)
     res["fault_fired"]["stiffness_sweep"] = 1
     for (m0, d0, c0), (m1_, d1, c1) in zip(vals[:-1], vals[1:]):
